@@ -703,20 +703,42 @@ Proof.
   rewrite E. reflexivity.
 Qed.
 
-(* resource_url_shape: application URL, then the (virtual) path with its
-   trailing slash, then the quoted elements *)
-Theorem resource_url_shape root r names els vroot vt sn d app :
+(* webob quotes SCRIPT_NAME with the same set of safe characters as pyramid (in another order) *)
+Lemma memN_subset l1 l2 b : forallb (fun x => memN x l2) l1 = true -> memN b l1 = true -> memN b l2 = true.
+Proof. intros H Hb. apply memN_In in Hb. rewrite forallb_forall in H. exact (H b Hb). Qed.
+
+Lemma webob_safe_same b : is_safe webob_path_safe b = is_safe c07_script_safe b.
+Proof.
+  unfold is_safe. f_equal.
+  assert (H1 : forallb (fun x => memN x c07_script_safe) webob_path_safe = true) by (vm_compute; reflexivity).
+  assert (H2 : forallb (fun x => memN x webob_path_safe) c07_script_safe = true) by (vm_compute; reflexivity).
+  destruct (memN b webob_path_safe) eqn:E1; destruct (memN b c07_script_safe) eqn:E2; try reflexivity.
+  - rewrite (memN_subset _ _ b H1 E1) in E2. discriminate.
+  - rewrite (memN_subset _ _ b H2 E2) in E1. discriminate.
+Qed.
+
+Lemma webob_quote_same bs : Percent.quote webob_path_safe bs = Percent.quote c07_script_safe bs.
+Proof.
+  unfold Percent.quote. induction bs as [|b r IH]; [reflexivity|]. simpl. rewrite IH. f_equal.
+  unfold quote1. rewrite webob_safe_same. reflexivity.
+Qed.
+
+(* resource_url_shape: application URL (host part + quoted SCRIPT_NAME), then the
+   (virtual) path with its trailing slash, then the quoted elements *)
+Theorem resource_url_shape root r names els vroot vt sn d host :
   good_resource root r = Some names -> header_segments vroot = Some vt ->
   forallb (forallb valid_scalar) els = true -> decode_path_info sn = Ok d ->
-  resource_url UrlTupleCompare root r els vroot sn (Some app)
-    = Val (app ++ spec_virtual_path root r names vt ++ join [slash] (map q els)) /\
+  application_url host sn = Val (host ++ Percent.quote c07_script_safe (Utf8.encode d)) /\
+  resource_url UrlTupleCompare root r els vroot sn (Some host)
+    = Val ((host ++ Percent.quote c07_script_safe (Utf8.encode d)) ++ spec_virtual_path root r names vt
+           ++ join [slash] (map q els)) /\
   request_resource_path UrlTupleCompare root r els vroot sn
     = Val (Percent.quote c07_script_safe (Utf8.encode d) ++ spec_virtual_path root r names vt
            ++ join [slash] (map q els)).
 Proof.
   intros Hg Hh He Hd. destruct (url_virtual_path root r names vroot vt Hg Hh) as (u & Hu & Hvp & _).
-  unfold resource_url, request_resource_path, quoted_script_name. rewrite f_script_quoted, Hu, Hd.
-  cbn [lift xbind]. rewrite suffix_q by assumption. cbn [xbind]. rewrite Hvp. auto.
+  unfold resource_url, request_resource_path, quoted_script_name, application_url. rewrite f_script_quoted, Hu, Hd.
+  cbn [lift xbind]. rewrite suffix_q by assumption. cbn [xbind]. rewrite Hvp, webob_quote_same. auto.
 Qed.
 
 Lemma inside_no_header root r : inside root [] r = Some [].
@@ -724,13 +746,14 @@ Proof. reflexivity. Qed.
 
 (* resource_url_roundtrip: without a virtual root the URL is the application URL
    plus the slashed quoted names, and its path traverses back to the resource *)
-Theorem resource_url_roundtrip root r names sn d app :
+Theorem resource_url_roundtrip root r names sn d host :
   good_resource root r = Some names -> decode_path_info sn = Ok d ->
-  resource_url UrlTupleCompare root r [] None sn (Some app) = Val (app ++ slashed names) /\
+  resource_url UrlTupleCompare root r [] None sn (Some host)
+    = Val ((host ++ Percent.quote c07_script_safe (Utf8.encode d)) ++ slashed names) /\
   request_back UrlTupleCompare root r None = Val (r, [], Some r).
 Proof.
   intros Hg Hd. split.
-  - destruct (resource_url_shape root r names [] None [] sn d app Hg eq_refl eq_refl Hd) as (H & _).
+  - destruct (resource_url_shape root r names [] None [] sn d host Hg eq_refl eq_refl Hd) as (_ & H & _).
     unfold spec_virtual_path in H. rewrite inside_no_header in H. cbn [length skipn map join] in H.
     rewrite app_nil_r in H. exact H.
   - apply (url_traverses_back root r names None [] [] Hg eq_refl (inside_no_header root r)).
@@ -996,6 +1019,16 @@ Proof.
   rewrite path_list_eq, app_nil_r, jpt_abs by (apply plain_valid; assumption). reflexivity.
 Qed.
 
+(* the oracle is consulted only for texts webob takes for URLs *)
+Lemma find7_str_o_plain ok root a path : has_scheme path = false ->
+  find7_str_o ok root a path = find7 root a (PStr path).
+Proof.
+  intros H. unfold find7_str_o, find7, traverse7. cbn [xbind]. unfold blank_path_info_o, blank_path_info. rewrite H.
+  destruct (negb (is_ascii path)); [reflexivity|].
+  match goal with |- xbind ?x _ = _ => destruct x end; cbn [xbind]; [|reflexivity].
+  match goal with |- context [lift ?t] => destruct t end; reflexivity.
+Qed.
+
 Theorem spec_obs_sound c i sv :
   nth_error (spec_obs c) i = Some sv -> sv <> none_val ->
   (i = 4 \/ i = 6 -> scheme_like (c_rel c) = false) ->
@@ -1030,6 +1063,7 @@ Proof.
     destruct (relative_absolute_agree_str root a r names_a (c_rel c) s_abs Hg Hp (Hsch (or_intror eq_refl)) Hab)
       as (f & Hf & H1 & _).
     rewrite Hf. eexists. split; [reflexivity|]. rewrite Hc. change (join [slash] (map q (c_rel c))) with (qpath (c_rel c)).
+    rewrite find7_str_o_plain by (rewrite scheme_like_qpath by assumption; apply Hsch; auto).
     rewrite H1. reflexivity.
   - (* 7 *) destruct (text_eqb (c_rel_str c) (join [slash] (map q (c_rel c)))) eqn:Hc; [|congruence].
     apply text_eqb_eq in Hc.
@@ -1087,18 +1121,16 @@ Proof.
   - (* 9 *) destruct (good_resource root r) as [names|] eqn:Hg; [|cbn in Hne; congruence].
     destruct (header_segments (c_vroot c)) as [vt|] eqn:Hh; [|cbn in Hne; congruence].
     unfold spec_suffix in *. destruct (forallb (forallb valid_scalar) (c_els c)) eqn:He; [|cbn in Hne; congruence].
-    destruct (c_app c) as [app|] eqn:Ea; [|cbn in Hne; congruence].
+    destruct (c_app c) as [host|] eqn:Ea; [|cbn in Hne; congruence].
     destruct (decode_path_info (c_script c)) as [d| |] eqn:Hd; try (cbn in Hne; congruence).
-    destruct (resource_url_shape root r names (c_els c) (c_vroot c) vt (c_script c) d app Hg Hh He Hd) as (H1 & _).
-    eexists. split; [reflexivity|]. rewrite H1. reflexivity.
+    destruct (resource_url_shape root r names (c_els c) (c_vroot c) vt (c_script c) d host Hg Hh He Hd) as (_ & H1 & _).
+    eexists. split; [reflexivity|]. rewrite H1, <- app_assoc. reflexivity.
   - (* 10 *) destruct (good_resource root r) as [names|] eqn:Hg; [|cbn in Hne; congruence].
     destruct (header_segments (c_vroot c)) as [vt|] eqn:Hh; [|cbn in Hne; congruence].
     unfold spec_suffix in *. destruct (forallb (forallb valid_scalar) (c_els c)) eqn:He; [|cbn in Hne; congruence].
     destruct (decode_path_info (c_script c)) as [d| |] eqn:Hd; try (cbn in Hne; congruence).
-    destruct (text_eqb (Percent.quote c07_script_safe (encode d)) d) eqn:Eq; [|cbn in Hne; congruence].
-    apply text_eqb_eq in Eq.
-    destruct (resource_url_shape root r names (c_els c) (c_vroot c) vt (c_script c) d [] Hg Hh He Hd) as (_ & H2).
-    eexists. split; [reflexivity|]. rewrite H2, Eq. reflexivity.
+    destruct (resource_url_shape root r names (c_els c) (c_vroot c) vt (c_script c) d [] Hg Hh He Hd) as (_ & _ & H2).
+    eexists. split; [reflexivity|]. rewrite H2. reflexivity.
   - (* 11 *) destruct (good_resource root r) as [names|] eqn:Hg; [|cbn in Hne; congruence].
     destruct (header_segments (c_vroot c)) as [vt|] eqn:Hh; [|cbn in Hne; congruence].
     destruct (inside root vt r) as [v|] eqn:Hi; [|cbn in Hne; congruence].
@@ -1107,4 +1139,242 @@ Proof.
     destruct (header_segments (c_vroot c)) as [vt|] eqn:Hh; [|cbn in Hne; congruence].
     destruct (inside root vt r) as [v|] eqn:Hi; [|cbn in Hne; congruence].
     eexists. split; [reflexivity|]. rewrite (url_traverses_back root r names (c_vroot c) vt v Hg Hh Hi). reflexivity.
+Qed.
+
+(* ================================================================== inadmissible names *)
+(* What find_resource does with the path tuple of ANY resource whose names are
+   text (Unicode scalar values), admissible or not: the quoted joined path is
+   decoded back to "/" n1 "/" ... "/" nk, normalised by split_path_info, and walked. *)
+Definition segments_of (names : list text) : list text := split_path_info (slash :: join [slash] names).
+
+Definition walk_result (ob : rnode) (segs : list text) : found :=
+  let '(ctx, _, rest) := walk ob segs in
+  match view_name_of rest with [] => FoundAt (fst ctx) | _ => KeyErr end.
+
+Lemma outcome_walk ob ps sub :
+  let '(ctx, c, rest) := walk ob ps in
+  t_context (model_outcome ob [] ps sub) = fst ctx /\ t_view_name (model_outcome ob [] ps sub) = view_name_of rest.
+Proof.
+  destruct (walk ob ps) as [[ctx c] rest] eqn:Hw.
+  destruct (spec_outcome_walk ob [] ps sub) as (ctx' & c' & r' & Ho & Hf). cbv zeta in Hf.
+  destruct Hf as (F1 & _ & F3 & _). apply walk_unique in Ho. simpl app in Ho. rewrite Hw in Ho. injection Ho as <- <- <-.
+  destruct (model_outcome_fields ob [] ps sub) as (M1 & M2 & _). cbv zeta in M1, M2. rewrite M1, M2. auto.
+Qed.
+
+Theorem find_abs_general root start names :
+  Forall (fun s => forallb valid_scalar s = true) names ->
+  find7 root start (PTuple ([] :: names)) = Val (walk_result ([], root) (segments_of names)).
+Proof.
+  intros Hv. unfold find7, traverse7. rewrite jpt_abs by assumption. cbn [lift xbind].
+  assert (Ha : is_ascii (slash :: qpath names) = true) by (simpl; rewrite is_ascii_qpath by assumption; reflexivity).
+  rewrite Ha. cbn [negb]. rewrite N.eqb_refl. cbn [xbind].
+  rewrite blank_plain.
+  2:{ apply has_scheme_slash. }
+  2:{ intros [H|H]; [discriminate|]. exact (qpath_no_question names Hv H). }
+  cbn [xbind]. rewrite wu_cons by (unfold slash; lia).
+  rewrite <- (app_nil_r (qpath names)), wu_qpath by (auto). rewrite wu_nil, app_nil_r.
+  pose proof (wire_path_decode names false Hv) as Hd. unfold wire_path, text_path in Hd. rewrite !app_nil_r in Hd.
+  match goal with |- context [lift ?t] =>
+    replace t with (Ok (model_outcome ([], root) [] (segments_of names) [])) end.
+  2:{ symmetry. apply (traverser_on_path ([], root) _ _ None [] Hd). reflexivity. }
+  cbn [lift xbind]. unfold walk_result.
+  pose proof (outcome_walk ([], root) (segments_of names) []) as H.
+  destruct (walk ([], root) (segments_of names)) as [[ctx c] rest]. destruct H as (-> & ->). reflexivity.
+Qed.
+
+(* a lone surrogate (anything that is not a Unicode scalar value) cannot be encoded *)
+Lemma rmap_quote_bad names : existsb (fun s => negb (forallb valid_scalar s)) names = true ->
+  rmap quote_path_segment names = Exc UnicodeEncodeError.
+Proof.
+  induction names as [|x r IH]; simpl; [discriminate|].
+  unfold quote_path_segment at 1. destruct (forallb valid_scalar x); simpl; [|reflexivity].
+  intros H. rewrite IH by assumption. reflexivity.
+Qed.
+
+Theorem surrogate_name_unencodable root r names els :
+  names_at root r = Some names -> existsb (fun s => negb (forallb valid_scalar s)) names = true ->
+  resource_path root r els = Err (EExn UnicodeEncodeError) /\
+  forall a, xbind (resource_path_tuple root r []) (fun t => find7 root a (PTuple t)) = Err (EExn UnicodeEncodeError).
+Proof.
+  intros Hn Hb.
+  assert (Hr : forall l, rmap quote_path_segment (([] :: names) ++ l) = Exc UnicodeEncodeError).
+  { intros l.
+    assert (E : rmap quote_path_segment (names ++ l) = Exc UnicodeEncodeError).
+    { apply rmap_quote_bad. rewrite existsb_app. apply orb_true_iff. left. exact Hb. }
+    change (([] :: names) ++ l) with ([] :: (names ++ l)).
+    change (rmap quote_path_segment ([] :: (names ++ l)))
+      with (rbind (quote_path_segment []) (fun y => rbind (rmap quote_path_segment (names ++ l)) (fun ys => Ok (y :: ys)))).
+    rewrite E. reflexivity. }
+  split.
+  - unfold resource_path, resource_path_tuple, names_of. rewrite Hn. cbn [xbind]. rewrite path_list_eq.
+    unfold join_path_tuple. cbn [app].
+    match goal with |- context [rmap quote_path_segment ?l] =>
+      replace (rmap quote_path_segment l) with (@Exc (list text) UnicodeEncodeError) by (symmetry; exact (Hr els)) end.
+    reflexivity.
+  - intros a. unfold resource_path_tuple, names_of. rewrite Hn. cbn [xbind]. rewrite path_list_eq.
+    unfold find7, traverse7, join_path_tuple. cbn [app].
+    match goal with |- context [rmap quote_path_segment ?l] =>
+      replace (rmap quote_path_segment l) with (@Exc (list text) UnicodeEncodeError) by (symmetry; exact (Hr [])) end.
+    reflexivity.
+Qed.
+
+(* ---- how the normalisation treats one odd name among plain ones *)
+Lemma rev_tl_rev {A} (l : list A) : rev (tl (rev l)) = removelast l.
+Proof.
+  destruct l as [|x l] using rev_ind; [reflexivity|].
+  rewrite rev_app_distr. simpl. rewrite rev_involutive, removelast_last. reflexivity.
+Qed.
+
+Lemma segments_resolve names : names <> [] -> Forall (fun s => ~ In slash s) names ->
+  segments_of names = rev (resolve [] names).
+Proof.
+  intros Hne Hf. unfold segments_of. rewrite spi_no_strip, split_on_cons_sep, resolve_empty_seg.
+  rewrite split_join by assumption. reflexivity.
+Qed.
+
+Lemma plain_no_slash l : plain l -> Forall (fun s => ~ In slash s) l.
+Proof. intros H. eapply Forall_impl; [|apply plain_normal; exact H]. intros a (_ & _ & _ & X). exact X. Qed.
+
+(* '' and '.' are skipped, '..' removes the name before it *)
+Theorem segments_skip pre n post : plain pre -> plain post ->
+  (n = [] \/ n = [dot]) -> segments_of (pre ++ n :: post) = pre ++ post.
+Proof.
+  intros Hp Hq Hn. rewrite segments_resolve.
+  - rewrite resolve_app, (resolve_normal_push [] pre) by (apply plain_normal; assumption). rewrite app_nil_r.
+    rewrite resolve_cons. assert (E : spi_step (rev pre) n = rev pre) by (destruct Hn as [->| ->]; reflexivity).
+    rewrite E, resolve_normal_push by (apply plain_normal; assumption).
+    rewrite rev_app_distr, !rev_involutive. reflexivity.
+  - destruct pre; discriminate.
+  - apply Forall_app. split; [apply plain_no_slash; assumption|].
+    constructor; [destruct Hn as [->| ->]; simpl; intuition discriminate|apply plain_no_slash; assumption].
+Qed.
+
+Theorem segments_dotdot pre post : plain pre -> plain post ->
+  segments_of (pre ++ [dot; dot] :: post) = removelast pre ++ post.
+Proof.
+  intros Hp Hq. rewrite segments_resolve.
+  - rewrite resolve_app, (resolve_normal_push [] pre) by (apply plain_normal; assumption). rewrite app_nil_r.
+    rewrite resolve_cons. change (spi_step (rev pre) [dot; dot]) with (tl (rev pre)).
+    rewrite resolve_normal_push by (apply plain_normal; assumption).
+    rewrite rev_app_distr, rev_involutive, rev_tl_rev. reflexivity.
+  - destruct pre; discriminate.
+  - apply Forall_app. split; [apply plain_no_slash; assumption|].
+    constructor; [simpl; intuition discriminate|apply plain_no_slash; assumption].
+Qed.
+
+Lemma join_split_name (pre post : list text) (x y : text) :
+  join [slash] (pre ++ (x ++ slash :: y) :: post) = join [slash] (pre ++ x :: y :: post).
+Proof.
+  induction pre as [|p pre IH].
+  - simpl app. destruct post as [|z post]; simpl; rewrite <- ?app_assoc; reflexivity.
+  - simpl app. destruct (pre ++ (x ++ slash :: y) :: post) as [|a l] eqn:E1; [destruct pre; discriminate|].
+    destruct (pre ++ x :: y :: post) as [|b m] eqn:E2; [destruct pre; discriminate|].
+    change (join [slash] (p :: a :: l)) with (p ++ [slash] ++ join [slash] (a :: l)).
+    change (join [slash] (p :: b :: m)) with (p ++ [slash] ++ join [slash] (b :: m)).
+    rewrite IH. reflexivity.
+Qed.
+
+(* a '/' inside a name splits it in two *)
+Theorem segments_slash pre x y post : plain pre -> plain post -> plain [x; y] ->
+  segments_of (pre ++ (x ++ slash :: y) :: post) = pre ++ x :: y :: post.
+Proof.
+  intros Hp Hq Hxy. unfold segments_of. rewrite join_split_name.
+  pose proof (text_path_split (pre ++ x :: y :: post) false) as H. unfold text_path in H. rewrite app_nil_r in H.
+  apply H. apply plain_normal. apply plain_app. split; [assumption|].
+  change (x :: y :: post) with ([x; y] ++ post). apply plain_app. auto.
+Qed.
+
+(* a name that starts with '@@' is a normal segment, but the walk stops there *)
+Lemma walk_stops_at_selector ob pre n post p :
+  plain pre -> descend ob pre = Some p -> spec_is_selector n = true ->
+  walk ob (pre ++ n :: post) = (p, pre, n :: post).
+Proof.
+  intros Hp Hd Hs. apply walk_unique. repeat split; auto. apply plain_no_selector. assumption.
+Qed.
+
+Lemma walk_plain ob segs : plain segs ->
+  walk_result ob segs = lookup_result ob segs.
+Proof.
+  intros Hp. unfold walk_result, lookup_result.
+  destruct (descend ob segs) as [n|] eqn:E.
+  - assert (Hw : walk ob segs = (n, segs, [])).
+    { apply walk_unique. repeat split; auto; [rewrite app_nil_r; reflexivity|apply plain_no_selector; assumption]. }
+    rewrite Hw. reflexivity.
+  - destruct (walk ob segs) as [[ctx c] rest] eqn:Hw. destruct (walk_sound _ _ _ _ _ Hw) as (H1 & H2 & _ & _).
+    destruct rest as [|s rest'].
+    + rewrite app_nil_r in H1. subst c. congruence.
+    + unfold view_name_of.
+      assert (Hin : In s segs) by (rewrite H1; apply in_or_app; right; left; reflexivity).
+      pose proof (plain_no_selector _ Hp) as Hs. unfold no_selector in Hs. rewrite forallb_forall in Hs.
+      specialize (Hs s Hin). apply negb_true_iff in Hs. rewrite Hs.
+      pose proof (plain_nonempty _ Hp) as Hne. rewrite Forall_forall in Hne. specialize (Hne s Hin).
+      destruct s; [congruence|reflexivity].
+Qed.
+
+(* the five ways the round trip goes wrong, one odd name among admissible ones:
+   ''  '.'   the name is skipped: the lookup continues from its PARENT
+   '..'      the name and the one before it are dropped
+   'x/y'     looked up as two names
+   '@@v'     KeyError (v non-empty)        '@@'  the parent is returned *)
+Theorem odd_name_outcomes root start pre post :
+  plain pre -> plain post ->
+  (forall n, n = [] \/ n = [dot] ->
+     find7 root start (PTuple ([] :: pre ++ n :: post)) = Val (lookup_result ([], root) (pre ++ post))) /\
+  find7 root start (PTuple ([] :: pre ++ [dot; dot] :: post)) = Val (lookup_result ([], root) (removelast pre ++ post)) /\
+  (forall x y, plain [x; y] ->
+     find7 root start (PTuple ([] :: pre ++ (x ++ slash :: y) :: post)) = Val (lookup_result ([], root) (pre ++ x :: y :: post))) /\
+  (forall n p, normal_seg n -> forallb valid_scalar n = true -> spec_is_selector n = true ->
+     descend ([], root) pre = Some p ->
+     find7 root start (PTuple ([] :: pre ++ n :: post))
+       = Val (match skipn 2 n with [] => FoundAt (fst p) | _ => KeyErr end)).
+Proof.
+  intros Hp Hq. pose proof (plain_valid _ Hp) as Hvp. pose proof (plain_valid _ Hq) as Hvq.
+  split; [|split; [|split]].
+  - intros n Hn. rewrite find_abs_general.
+    + rewrite segments_skip by assumption. rewrite walk_plain by (apply plain_app; auto). reflexivity.
+    + apply Forall_app. split; [assumption|]. constructor; [destruct Hn as [->| ->]; reflexivity|assumption].
+  - rewrite find_abs_general.
+    + rewrite segments_dotdot by assumption. rewrite walk_plain; [reflexivity|].
+      apply plain_app. split; [|assumption]. rewrite removelast_firstn_len. apply plain_firstn. assumption.
+    + apply Forall_app. split; [assumption|]. constructor; [reflexivity|assumption].
+  - intros x y Hxy. rewrite find_abs_general.
+    + rewrite segments_slash by assumption. rewrite walk_plain; [reflexivity|].
+      apply plain_app. split; [assumption|]. change (x :: y :: post) with ([x; y] ++ post). apply plain_app. auto.
+    + pose proof (plain_valid _ Hxy) as Hv. inversion Hv as [|? ? Hx Hy']. inversion Hy' as [|? ? Hy _]. subst.
+      apply Forall_app. split; [assumption|]. constructor; [|assumption].
+      rewrite forallb_app. simpl. rewrite Hx, Hy. reflexivity.
+  - intros n p Hn Hv Hs Hd. rewrite find_abs_general.
+    + unfold segments_of.
+      pose proof (text_path_split (pre ++ n :: post) false) as H. unfold text_path in H. rewrite app_nil_r in H.
+      rewrite H.
+      * unfold walk_result. rewrite (walk_stops_at_selector ([], root) pre n post p Hp Hd Hs).
+        unfold view_name_of. rewrite Hs. reflexivity.
+      * apply Forall_app. split; [apply plain_normal; assumption|]. constructor; [assumption|apply plain_normal; assumption].
+    + apply Forall_app. split; [assumption|]. constructor; assumption.
+Qed.
+
+(* whatever the names are: a resource with an inadmissible name in its lineage is never the answer *)
+Lemma walk_consumed_plainish ob segs ctx c rest :
+  Forall normal_seg segs -> walk ob segs = (ctx, c, rest) ->
+  Forall (fun s => normal_seg s /\ spec_is_selector s = false) c.
+Proof.
+  intros Hn Hw. destruct (walk_sound _ _ _ _ _ Hw) as (H1 & _ & H3 & _). subst segs.
+  apply Forall_app in Hn as [Hc _]. unfold no_selector in H3. rewrite forallb_forall in H3.
+  rewrite Forall_forall in *. intros s Hs. split; [auto|]. specialize (H3 s Hs). apply negb_true_iff in H3. exact H3.
+Qed.
+
+Theorem inadmissible_never_found_back root r a names :
+  names_at root r = Some names -> Forall (fun s => forallb valid_scalar s = true) names ->
+  existsb (fun s => negb (normal_segb s && negb (spec_is_selector s))) names = true ->
+  exists f, xbind (resource_path_tuple root r []) (fun t => find7 root a (PTuple t)) = Val f /\ f <> FoundAt r.
+Proof.
+  intros Hn Hv Hb. unfold resource_path_tuple, names_of. rewrite Hn. cbn [xbind]. rewrite path_list_eq, app_nil_r.
+  rewrite find_abs_general by assumption. eexists. split; [reflexivity|].
+  unfold walk_result. destruct (walk ([], root) (segments_of names)) as [[ctx c] rest] eqn:Hw.
+  destruct (view_name_of rest); [|discriminate]. intros E. injection E as E.
+  destruct (walk_sound _ _ _ _ _ Hw) as (_ & H2 & _ & _).
+  pose proof (walk_consumed_plainish _ _ _ _ _ (spi_normal _) Hw) as Hc.
+  destruct (descend_root_tree root c ctx H2) as (_ & N2). rewrite E, Hn in N2. injection N2 as ->.
+  apply existsb_exists in Hb as (s & Hs & Hbad). rewrite Forall_forall in Hc. destruct (Hc s Hs) as (Hnorm & Hsel).
+  apply normal_segb_spec in Hnorm. rewrite Hnorm, Hsel in Hbad. discriminate.
 Qed.
